@@ -15,6 +15,7 @@ import (
 	capnp "capnproto.org/go/capnp/v3"
 	"capnproto.org/go/capnp/v3/rpc"
 	"capnproto.org/go/capnp/v3/server"
+	rpccp "capnproto.org/go/capnp/v3/std/capnp/rpc"
 )
 
 // ---------------------------------------------------------------- case description
@@ -190,6 +191,7 @@ type world struct {
 	aborted bool
 	closed  [2]bool
 	local   *capnp.Client // a capability hosted by A's application, passed as parameter
+	raw     bool          // side B is a bare transport driven by the scenario (hostile peer)
 	cleanup []func()
 }
 
@@ -226,6 +228,9 @@ func (t *tracked) finished() bool {
 // the in-memory stream never blocks a writer), so both locks of both connections must be free.
 func (w *world) probe(at string) {
 	for s := 0; s < 2; s++ {
+		if w.conn[s] == nil {
+			continue
+		}
 		v := w.conn[s].VerifLocks()
 		if !v.MuFree {
 			w.violate("mu-held")
@@ -283,6 +288,7 @@ type runResult struct {
 }
 
 var scenarios = map[string]func(w *world){}
+var rawScenarios = map[string]bool{}
 var scenarioNames []string
 
 func reg(name string, f func(w *world)) {
@@ -324,7 +330,12 @@ func runCase(t *testing.T, cs caseSpec, flush func(runResult)) {
 		case "eof":
 			fr.eofAt = cs.idx
 		}
+		w.raw = rawScenarios[cs.scen]
 		for s := 0; s < 2; s++ {
+			if s == 1 && w.raw {
+				apps[s].Release()
+				continue
+			}
 			w.conn[s] = rpc.NewConn(w.ft[s], &rpc.Options{BootstrapClient: apps[s]})
 		}
 
@@ -350,6 +361,10 @@ func runCase(t *testing.T, cs caseSpec, flush func(runResult)) {
 		}
 		if !w.aborted {
 			for s := 0; s < 2; s++ {
+				if w.conn[s] == nil {
+					w.do("close-raw", func() { w.ft[s].Close() })
+					continue
+				}
 				if !w.closed[s] {
 					s := s
 					w.do("close-"+"AB"[s:s+1], func() { w.conn[s].Close() })
@@ -654,6 +669,55 @@ func init() {
 		}
 		w.finish("block-result", h)
 		w.finish("getcapblock-result", h2)
+		w.step()
+	})
+	// a hostile peer answers the Bootstrap with a Return whose capability table is
+	// [senderHosted 7, receiverHosted 99]: recvPayload imports the first, fails on the second
+	rawScenarios["hostilecaps"] = true
+	reg("hostilecaps", func(w *world) {
+		var boot *capnp.Client
+		t := w.do("bootstrap", func() { boot = w.conn[0].Bootstrap(w.ctx) })
+		if !w.step() {
+			return
+		}
+		w.do("raw-return", func() {
+			raw := w.ft[1]
+			in, rel, err := raw.RecvMessage(w.ctx)
+			if err != nil {
+				return
+			}
+			if in.Which() != rpccp.Message_Which_bootstrap {
+				rel()
+				return
+			}
+			b, err := in.Bootstrap()
+			if err != nil {
+				rel()
+				return
+			}
+			qid := b.QuestionId()
+			rel()
+			msg, send, release, err := raw.NewMessage(w.ctx)
+			if err != nil {
+				return
+			}
+			defer release()
+			ret, _ := msg.NewReturn()
+			ret.SetAnswerId(qid)
+			pl, _ := ret.NewResults()
+			pl.SetContent(capnp.NewInterface(pl.Segment(), 0).ToPtr())
+			ct, _ := pl.NewCapTable(2)
+			ct.At(0).SetSenderHosted(7)
+			ct.At(1).SetReceiverHosted(99)
+			send()
+		})
+		if !w.step() {
+			return
+		}
+		if t.finished() {
+			w.cleanup = append(w.cleanup, boot.Release)
+			w.do("resolve", func() { boot.Resolve(w.ctx) })
+		}
 		w.step()
 	})
 	reg("peerclose", func(w *world) {
